@@ -97,6 +97,53 @@ def parser_maps(ck):
     ck.floor("C18.9 pair parser constructions in Program.__init__", n, 1)
 
 
+def pair_parsers(ck):
+    """C18.11 / C18.12: what the two XMAP pair parsers hand back for the Alignment column"""
+    p = ck.ctx.p
+    ck.clause("C18.11", "the map-aware pair parser returns the maps' own label positions: <map>.positions[siteId - 1], unconverted")
+    ck.clause("C18.12", "label pairs come back in the order the file lists them, on both strands (COMA writes them in reference "
+                        "order whatever the orientation)")
+    aware = p.find_method("XmapAlignmentPairWithDistanceParser", "parse")
+    fns = [aware] + [c for c in aware.children if not c.is_lambda]
+    seen = {}
+    for f in fns:
+        for pa in explore(ck, f, unroll=(0, 1)):
+            for t, facts, node, kind in path_terms(pa):
+                for x in T.subterms(t):
+                    if x[0] == "new" and x[1].endswith(":BenchmarkAlignmentPosition"):
+                        seen.setdefault(x, (f, node))
+    ck.floor("C18.11 BenchmarkAlignmentPosition constructions in the map-aware parser", len(seen), 2)
+    for x, (f, node) in seen.items():
+        a = dict(x[2])
+        site, pos = a.get("siteId"), a.get("position")
+        ok = pos is not None and pos[0] == "idx" and pos[1][0] == "attr" and pos[1][2] == "positions" and site is not None \
+            and pos[2] == T.p_sub(site, C(1))
+        converted = pos is not None and pos[0] == "call" and pos[1] in ("int", "round", "float", "math.floor", "math.ceil", "math.trunc")
+        ck.judge(ok, "C18.11", short(f) + ":position", where(f, node),
+                 "the coordinate of a listed label is the map's position of that label number" +
+                 (" - not a rounded or truncated copy of it (label positions of real CMAPs are decimals)" if converted else ""),
+                 found=T.show(pos)[:140] if pos is not None else "None", required="<map>.positions[siteId - 1]")
+    plain = p.find_method("XmapAlignmentPairParser", "parse")
+    n = 0
+    bad = False
+    for f in [plain, aware]:
+        for pa in explore(ck, f, unroll=(0, 1)):
+            if pa.outcome != "return":
+                continue
+            n += 1
+            strand = [c for c, tv, _ in pa.state.assumptions if any(y == V("reverseStrand") for y in T.subterms(c))]
+            rev = [y for y in T.subterms(pa.value) if (y[0] == "slice" and y[4] == C(-1)) or (y[0] == "call" and y[1] == "reversed")]
+            if strand and rev:
+                bad = True
+                ck.violation("C18.12", short(f) + ":order", where(f, pa.node), "the pairs of a reverse-strand record are handed back in "
+                             "reversed order: the file lists them in reference order on both strands, so alignedPairs[0] of a '-' "
+                             "record read back is the last pair that was written", found=T.show(pa.value)[:160],
+                             required="the pairs in file order, whatever the strand")
+    ck.floor("C18.12 return paths of the XMAP pair parsers", n, 2)
+    if not bad:
+        ck.ok("C18.12", "XMAP pair parsers", plain.where, f"{n} return paths: none re-orders the pairs by strand")
+
+
 def run(ck):
     ck.clause("C18.1", "writer header / record / reader column tables agree (as C02.1, C02.2)")
     ck.clause("C18.2", "framing: separators, comment prefix, header prefix, header=False")
@@ -114,6 +161,7 @@ def run(ck):
     no_narrowing(ck, "C18.10", modules=("src.parsers.xmap_reader", "src.parsers.bionano_file_reader",
                                         "src.parsers.xmap_alignment_pair_parser", "src.correlation.bionano_alignment"), floor=15)
     parser_maps(ck)
+    pair_parsers(ck)
     w = extract_writer(ck)
     r = extract_reader(ck)
     column_table(ck, w, r, "C18.1")
